@@ -119,6 +119,16 @@ func (s *Stats) ForeignExample(v Violation, trace []string) {
 	}
 }
 
+// Example keeps the first few values of a kind in the evidence, for diagnosis.
+func (s *Stats) Example(kind string, v any, max int) {
+	s.mu.Lock()
+	defer s.mu.Unlock()
+	ex, _ := s.Extra[kind].([]any)
+	if len(ex) < max {
+		s.Extra[kind] = append(ex, v)
+	}
+}
+
 func (s *Stats) Abort(why string) {
 	s.mu.Lock()
 	s.Aborted[why]++
